@@ -996,10 +996,16 @@ func installHooks() {
 		do()
 	}
 	zzsimhook.UnlockFn = func(m interface{}, mode byte, site string, do func()) {
-		if s := current.Load(); s != nil {
+		s := current.Load()
+		if s != nil {
 			s.unlock(m, mode)
 		}
 		do()
+		// an interleaving point right after the release: the window between "unlock" and whatever
+		// the code does next with what it read under the lock (check-then-act, stale publication)
+		if s != nil && !s.dead.Load() {
+			s.Yield(site + "#unlocked")
+		}
 	}
 	zzsimhook.SelectOrderFn = func(site string, n int) []int {
 		if s := current.Load(); s != nil && !s.dead.Load() {
